@@ -237,11 +237,12 @@ struct World
     if (n == "log")
     {
       int const l = static_cast<int>(op.getu("l") % 6);
-      std::string const text = "m" + std::to_string(op.getu("txt") % 1000);
+      unsigned const tnum = static_cast<unsigned>(op.getu("txt") % 1000);
+      std::string const text = "m" + std::to_string(tnum) + "|" + std::to_string(tnum * 7U);
       long const accept = sim::fault::st().target[sim::fault::accept];
       if (accept > 0)
         sinkbuf[l]->accept_limit(accept - 1);
-      bool const ok = guarded(n, [&] { ob.o->log(static_cast<fcppt::log::level>(l), fcppt::log::out << text); });
+      bool const ok = guarded(n, [&] { ob.o->log(static_cast<fcppt::log::level>(l), fcppt::log::out << "m" << tnum << '|' << tnum * 7U); });
       if (accept > 0)
       {
         sinkbuf[l]->accept_limit(-1);
